@@ -96,10 +96,16 @@ def check_rows(rows_text, expect, off, ordered=True):
         parsed.append((typ, st, en, strand, phase, a))
     # every expected row is present with the right coordinates
     for typ, s, e, strand, phase in expect:
-        cands = [p for p in parsed if p[0] == typ and p[3] == strand and p[4] == phase]
-        if not cands:
-            return False
-        conds.append(OR(*[AND(p[1] == s - off + 1, p[2] == e - off) for p in cands]))
+        if isinstance(phase, str):
+            cands = [p for p in parsed if p[0] == typ and p[3] == strand and p[4] == phase]
+            if not cands:
+                return False
+            conds.append(OR(*[AND(p[1] == s - off + 1, p[2] == e - off) for p in cands]))
+        else:  # a phase given as a (possibly symbolic) integer
+            cands = [p for p in parsed if p[0] == typ and p[3] == strand and p[4] in ("0", "1", "2")]
+            if not cands:
+                return False
+            conds.append(OR(*[AND(p[1] == s - off + 1, p[2] == e - off, int(p[4]) == phase) for p in cands]))
     conds.append(len(parsed) == len(expect))
     return AND(*conds)
 
@@ -121,8 +127,18 @@ def gene_rows_fn(strand, frames, mode):
         off = kw["w"] if rel else 0
         expect = [("gene", ex[0][0], ex[1][1], "+", "."), ("transcript", ex[0][0], ex[1][1], sym, "."), ("exon", ex[0][0], ex[0][1], sym, "."),
                   ("exon", ex[1][0], ex[1][1], sym, ".")]
-        for (cs, ce), f in zip(cds, frames):
-            expect.append(("CDS", cs, ce, sym, str(CDSFrame(f).to_phase().value)))
+        if rel and len(frames) == 2:
+            # chunk-relative export writes the frames of the chunk view, which the library REGENERATES as one uninterrupted reading frame from the frame of the
+            # 5'-most visible block (documented in CDSInterval.chunk_relative_frames: an annotated frameshift is not carried into the chunk view)
+            if strand is PLUS:
+                fr = [frames[0], (l0 - frames[0]) % 3]
+            else:
+                fr = [(l1 - frames[1]) % 3, frames[1]]
+            for (cs, ce), f in zip(cds, fr):
+                expect.append(("CDS", cs, ce, sym, (3 - f) % 3))
+        else:
+            for (cs, ce), f in zip(cds, frames):
+                expect.append(("CDS", cs, ce, sym, str(CDSFrame(f).to_phase().value)))
         # a gene's own rows are emitted parent-first, not globally sorted: order is checked on collections (non-chunk obligations)
         return check_rows(rows, expect, off, ordered=False)
 
@@ -242,8 +258,12 @@ def rows_minus_chunk_fn(strand):
     return fn
 
 
-def rows_pre(mode):
+def rows_pre(mode, frames=None, strand=None):
     def pre(**kw):
+        if mode == "chunk_rel" and frames is not None and len(frames) == 2:
+            # outside the claim: a 5'-most block that is not longer than its own frame offset
+            if not (kw["l0"] > frames[0] if strand is PLUS else kw["l1"] > frames[1]):
+                return False
         if not (kw["s0"] >= 0 and kw["l0"] >= 1 and kw["g"] >= 1 and kw["l1"] >= 1 and kw["fs"] >= 0 and kw["fl"] >= 1):
             return False
         if mode:
@@ -684,7 +704,7 @@ def obligations(tier):
                     ex.update(fs=0, fl=1)
                 ex = {k: v for k, v in ex.items() if k in params}
                 out.append(Obl("rows_%s_f%s_%s" % (sname(strand), "".join(map(str, frames)), mode or "nochunk"), gene_rows_fn(strand, frames, mode), params,
-                               rows_pre(mode), budget=900, cost=400 if mode else 40, stubs=dict(tokens=True),
+                               rows_pre(mode, frames, strand), budget=900, cost=400 if mode else 40, stubs=dict(tokens=True),
                                desc="exported rows (gene with coding+non-coding transcript, feature collection) read back column by column: 9 columns, "
                                     "1-based inclusive start<=end equal to the source blocks, strand symbol, phase only on CDS rows == frame-derived phase, "
                                     "unique IDs, every Parent defined earlier, rows ordered by start, %s coordinates" % ("chunk" if mode == "chunk_rel" else "chromosome"),
